@@ -295,10 +295,9 @@ func c28RunHistory(t *testing.T, idx int, line string) c28Result {
 				PurgeLocal(id)
 			}
 
-			if res.Kind == "BG" {
-				// the background sweepers of this history end at their next wake-up (their cache is gone)
-				time.Sleep(61 * time.Second)
-			}
+			// background sweepers of this history (BG runs; or started by a concurrent batch in which a sweep of a
+			// missing cache re-armed the sweeper) end at their next wake-up, because their cache is gone
+			time.Sleep(61 * time.Second)
 
 			synctest.Wait()
 			SetOnEvict(nil)
@@ -447,6 +446,68 @@ func TestVerifC28(t *testing.T) {
 	}
 }
 
+// TestVerifC28Stress runs every exported operation (and the sweep) from several goroutines for VERIF_MS
+// milliseconds. It only looks for crashes: an unsynchronised access to the shared maps ends the process with
+// "fatal error: concurrent map ..." which the check reports together with the lock-discipline scan.
+func TestVerifC28Stress(t *testing.T) {
+	ms, _ := strconv.Atoi(os.Getenv("VERIF_MS"))
+	if ms <= 0 {
+		ms = 800
+	}
+
+	const base, n = 5000, 48
+
+	c28NoSweeper(base, n)
+
+	stop := time.Now().Add(time.Duration(ms) * time.Millisecond)
+
+	var wg sync.WaitGroup
+
+	for g := 0; g < 4; g++ {
+		wg.Add(1)
+
+		go func(g int) {
+			defer wg.Done()
+
+			for i := 0; time.Now().Before(stop); i++ {
+				id := base + (i*7+g)%n
+
+				Add(id, i%3, i)
+				Find(id, i%3)
+				Size(id)
+				// one class shared by all goroutines, so that operations on the same item map overlap
+				Add(base, i%3, i)
+				Find(base, (i+1)%3)
+				Find(base, i%3)
+
+				switch i % 5 {
+				case 0:
+					PurgeLocal(id)
+				case 1:
+					Delete(id, i%3)
+				case 2:
+					_ = SetExpiration(id, "30s")
+				case 3:
+					sweepExpired(id)
+					c28NoSweeper(id, 1)
+				}
+			}
+		}(g)
+	}
+
+	wg.Add(1)
+
+	go func() {
+		defer wg.Done()
+
+		for time.Now().Before(stop) {
+			PurgeAll()
+		}
+	}()
+
+	wg.Wait()
+}
+
 // ---------------------------------------------------------------------------------------------
 // lock discipline: every mention of the shared maps must be inside a cacheLock critical section
 
@@ -459,6 +520,7 @@ type c28Access struct {
 }
 
 type c28LockScan struct {
+	readOnly bool // the current critical section holds only the read lock
 	fset     *token.FileSet
 	fn       string
 	file     string
@@ -493,6 +555,17 @@ func (s *c28LockScan) note(n ast.Node, locked bool) {
 
 	ast.Inspect(n, func(x ast.Node) bool {
 		switch v := x.(type) {
+		case *ast.AssignStmt:
+			// under the read lock nothing reachable from the shared maps may be written: any store through an
+			// index expression (cache.Items[key] = ..., cacheList[id] = ...) is reported
+			if locked && s.readOnly {
+				for _, l := range v.Lhs {
+					if _, ok := l.(*ast.IndexExpr); ok {
+						s.acc = append(s.acc, c28Access{Func: s.fn, Ident: "map store under RLock", File: s.file,
+							Line: s.fset.Position(l.Pos()).Line, Locked: false})
+					}
+				}
+			}
 		case *ast.FuncLit:
 			// a closure runs later: its body is checked as not holding the lock
 			s.block(v.Body.List, false)
@@ -504,6 +577,11 @@ func (s *c28LockScan) note(n ast.Node, locked bool) {
 					Line: s.fset.Position(v.Pos()).Line, Locked: locked})
 			}
 		case *ast.CallExpr:
+			if id, ok := v.Fun.(*ast.Ident); ok && id.Name == "delete" && locked && s.readOnly {
+				s.acc = append(s.acc, c28Access{Func: s.fn, Ident: "delete() under RLock", File: s.file,
+					Line: s.fset.Position(v.Pos()).Line, Locked: false})
+			}
+
 			if id, ok := v.Fun.(*ast.Ident); ok && s.needLock[id.Name] {
 				s.acc = append(s.acc, c28Access{Func: s.fn, Ident: id.Name + "()", File: s.file,
 					Line: s.fset.Position(v.Pos()).Line, Locked: locked})
@@ -520,8 +598,12 @@ func (s *c28LockScan) block(list []ast.Stmt, locked bool) (bool, bool) {
 		switch v := st.(type) {
 		case *ast.ExprStmt:
 			switch c28LockCall(v.X) {
-			case "Lock", "RLock":
-				locked = true
+			case "Lock":
+				locked, s.readOnly = true, false
+
+				continue
+			case "RLock":
+				locked, s.readOnly = true, true
 
 				continue
 			case "Unlock", "RUnlock":
@@ -671,6 +753,7 @@ func TestVerifC28Locks(t *testing.T) {
 				}
 
 				scan.fn = v.Name.Name
+				scan.readOnly = false
 				scan.file = filepath.Base(path)
 				// helpers documented as "called with the lock held" start locked; their call sites are checked
 				scan.block(v.Body.List, scan.needLock[v.Name.Name])
